@@ -409,7 +409,11 @@ func c18OpStore(a []string) string {
 			st = "err"
 		}
 	case "die":
-		cmd := exec.Command(os.Args[0])
+		exe, xerr := os.Executable()
+		if xerr != nil {
+			exe = os.Args[0]
+		}
+		cmd := exec.Command(exe)
 		cmd.Env = append(os.Environ(), "VERIF_C18_CHILD="+kind+" "+a[2]+" "+path+" "+newS)
 		e := cmd.Run()
 		if e != nil {
